@@ -156,6 +156,12 @@ func sargonEval(a []string) sargonInfo {
 	pos, turn := b.Position(), b.Turn()
 	pins := sargon.FindKingQueenPins(pos)
 	points := pts.Evaluate(ctx, b)
+	// the evaluation is a pure function of the board and the captured reference values: asked again (same evaluator, same
+	// board) it must answer again, and the same
+	if again := pts.Evaluate(ctx, b); again != points {
+		info.line = fmt.Sprintf("UNSTABLE first=%v again=%v", points, again)
+		return info
+	}
 	info.points = points
 	mtrl, ptschk := sargon.Material(ctx, b, pins)
 	info.ptschk = ptschk
